@@ -46,7 +46,7 @@ PROJECT = {
     "P.ucg": 'let render = func (cfg :: {x = ""}) => cfg.x;\nlet l = import "./L.ucg";\nlet u = render(l);\nout json {u = u};\n',
     # evaluates, but the checker refuses a statement that is not a let (sixth round: a file whose importer was checked first
     # must still be checked in full when it is built itself)
-    "Q.ucg": 'let port = 8080;\nout json {q = [port] + ["s"]};\n',
+    "Q.ucg": 'let port = 8080;\n[port] + ["s"];\nassert {ok = port, desc = "a port"};\nout json {q = port};\n',
     "R.ucg": 'let q = import "./Q.ucg";\nout json {r = q.port};\n',
     # conversions that fail after part of their text was produced, and conversions of the same kinds that succeed (sixth
     # round: a render buffer kept for the whole invocation; a converter that keeps its own buffer between conversions)
@@ -171,7 +171,7 @@ def work_e3(chunk):
 def role(n):
     return {"A.ucg": "plain", "L.ucg": "library", "B.ucg": "importer", "M.ucg": "built-and-imported", "N.ucg": "imports-built-file",
             "X.ucg": "type-error", "Y.ucg": "runtime-failure", "T.ucg": "two-spellings", "Z.ucg": "fails-after-importing-built-file",
-            "W.ucg": "fails-after-out", "H.ucg": "refused-by-checker-only", "I.ucg": "imports-inline-a-file-the-checker-refuses", "P.ucg": "passes-the-library-to-a-typed-parameter", "Q.ucg": "refused-by-checker-in-an-out-statement", "R.ucg": "imports-by-let-a-file-the-checker-refuses",
+            "W.ucg": "fails-after-out", "H.ucg": "refused-by-checker-only", "I.ucg": "imports-inline-a-file-the-checker-refuses", "P.ucg": "passes-the-library-to-a-typed-parameter", "Q.ucg": "refused-by-checker-in-a-statement-that-is-not-a-let", "R.ucg": "imports-by-let-a-file-the-checker-refuses",
             "V.ucg": "xml-conversion-fails-late", "U.ucg": "yamlmulti-conversion-fails-late", "S.ucg": "yamlmulti-artifact", "K.ucg": "xml-artifact"}[n]
 
 
